@@ -39,7 +39,7 @@ type C15Plan struct {
 	Shrink []string  `json:"_shrink"`
 }
 
-var c15Tokens = []string{"absent", "empty", "garbage", "truncated", "valid", "expired", "expiring-then-late", "fresh-1s", "other-audience", "no-audience", "other-key",
+var c15Tokens = []string{"absent", "empty", "garbage", "truncated", "valid", "expired", "expiring-then-late", "used-then-expired", "used-then-expired", "fresh-1s", "other-audience", "no-audience", "other-key",
 	"alg-none", "hs256-pubkey", "hs384-pubkey", "hs512-pubkey", "hs512-pubpem", "rs256", "no-exp", "tampered-payload"}
 var c15Cmds = []string{"submit", "cancel", "release", "force-release", "results", "status", "list"}
 var c15Types = []string{"secure", "echo", "remote-signed", "remote-unsigned", "unknown", "secure-variant"}
@@ -118,6 +118,9 @@ func c15Token(kind, node string) (tok string, valid bool, lateBy time.Duration, 
 		return sign(jwt.SigningMethodRS512, claims(now.Add(-time.Second), node), c15Key), false, 0, false
 	case "expiring-then-late":
 		return sign(jwt.SigningMethodRS512, claims(now.Add(time.Second), node), c15Key), false, 3 * time.Second, false
+	case "used-then-expired":
+		// honoured once while valid (the caller does that), presented again after it has expired
+		return sign(jwt.SigningMethodRS512, claims(now.Add(2*time.Second), node), c15Key), false, 4 * time.Second, false
 	case "fresh-1s":
 		return sign(jwt.SigningMethodRS512, claims(now.Add(2*time.Second), node), c15Key), true, 0, false
 	case "other-audience":
@@ -239,6 +242,16 @@ func runC15(t *testing.T, planAny any, res *simnet.Result) {
 					unit = "nosuchunit"
 				}
 				time.Sleep(400 * time.Millisecond)
+			}
+			if cell.Token == "used-then-expired" {
+				// first use, while the token is valid: a submit to the protected type over TCP
+				pc := node.Session("tcp")
+				_, _ = pc.Hello()
+				b, _ := json.Marshal(map[string]any{"command": "work", "subcommand": "submit", "node": "w0", "worktype": "secure", "signature": tok})
+				if id, _, _, _ := pc.Submit(string(b), []byte("first use"), 20*time.Second); id != "" {
+					res.Add("probe_token_used_while_valid", 1)
+				}
+				pc.Close()
 			}
 			if late > 0 {
 				time.Sleep(late)
